@@ -171,7 +171,7 @@ def generate(seed, tier, cfg):
             kind = f.choice(("F1", "F2", "F2", "F3", "F4", "F4")) if ops[oi]["k"] == "save" else f.choice(("F5", "F6", "F6"))
             at = f.choice((0, 0, 1, 2, 3, 5, 8))
             err = {"F1": f.choice((28, 13, 2)), "F2": f.choice((28, 5)), "F3": 28, "F4": 0, "F5": f.choice((2, 13)), "F6": 5}[kind]
-            faults.append({"kind": kind, "path": "*", "at": at if kind in ("F2", "F4", "F6") else 0, "errno": err, "op_index": oi})
+            faults.append({"kind": kind, "path": "*", "at": at if kind in ("F2", "F4", "F6") else 0, "errno": err, "op_index": oi, "frac": (round(f.random(), 3) if kind in ("F2", "F4", "F6") and f.random() < 0.5 else None)})
     return {"workload": asc, "ops": ops, "faults": faults, "knobs": {"mode": mode, "policy": policy, "min_ppq": min_ppq, "velocity": velocity, "chunk": k.choice((1, 7, 16, 0, 0)), "bufsize": k.choice((-1, 16, 512)), "late_structure": k.random() < 0.3}}
 
 
@@ -401,6 +401,7 @@ def execute(case, keep_log=False):
     smf = check_bytes(res, ref_bytes, asc, exp, kn)
     res.log.add("world", "reference", {"bytes": len(ref_bytes), "digest": FP.digest(ref_bytes)[:16]})
     fs = SimFS(chunk=kn["chunk"])
+    fs.expect_transfer(len(ref_bytes), kn["bufsize"])
     content = {}
     fault_by_op = {}
     for f in case["faults"]:
@@ -410,7 +411,7 @@ def execute(case, keep_log=False):
     with fs:
         g0 = G.fingerprint()
         for i, op in enumerate(case["ops"]):
-            fs.faults = [Fault(f["kind"], f["path"], f["at"], f["errno"]) for f in fault_by_op.get(i, [])]
+            fs.faults = [Fault(f["kind"], f["path"], f["at"], f["errno"], frac=f.get("frac")) for f in fault_by_op.get(i, [])]
             fs.inflight_points = []
             path = op["path"]
             fired_before = dict(fs.fired)
